@@ -22,6 +22,6 @@ META = dict(
          "depth >= 0: a successful Clean keeps every branch, prunes only the root up to a height P <= tip - depth that is at most every fork point, writes header k of the "
          "best chain as record k % 1000 of file k / 1000 (saveMain_files), and changes no observation: tip height/hash/work, Header(k)/Hash(k) for every k >= 0 (memory or files), "
          "HashHeight and CheckHeader (height + most-work-chain flag) of EVERY hash, pruned or not. "
-         "Every generated Clean is bracketed by full dumps compared by the monitor, and the model (which follows Consolidate/Truncate/Connect/Prune line by line) is compared with the code.",
+         "Every generated Clean is bracketed by full dumps compared by the monitor, and the model (which follows Consolidate/Truncate/Connect/Prune line by line) is compared with the code. In the linear world (every fork-free history of any length, incl. the automatic clean, earlier Cleans/Saves/Loads) Clean with any depth, any number of times, changes no observation (C10_linear_world).",
     note=COMMON_NOTE + "Partial: see evidence.",
 )
